@@ -63,6 +63,8 @@ ASSUMPTIONS = [
     "validate() calls and compares outcome / cache flag with the cache machine (op assignStructure): the stale verdicts it meets for the untracked "
     "kinds are COUNTED in the evidence (`outside_statement_stale_after_structural_setter`, Lean: cache_unsound_unseen_structural_setter, "
     "cache_sound_all_mutators_fails_today), not reported; for the tracked kinds (argument type / default, number of fields) they are failures",
+    "resolver identities recorded with the cached verdict stay alive (the fingerprint holds references): stream M drops a resolver, allocates replacements "
+    "until one lands on the freed address (evidence `address_reuse_collisions`: 0 everywhere on a tree that keeps references) and requires the fresh verdict",
     "plain assignment of resolvers (`schema.default_resolver = f`, `type.default_resolver = f`, `field.resolver = f`, "
     "`field.subscription_resolver = f`: documented in docs/usage/defining-resolvers.rst) is part of the histories; the model follows fix C13-HH1",
     "limit of any signature-based rule: `functools.partial(f, v)` hides the positionally bound parameter from `inspect.signature` although "
@@ -2989,6 +2991,109 @@ def stream_structural_setters(ctx, batch):
             ctx.stat("structural-setter-never-applicable:" + kind)
 
 
+# ---- M: a resolver dropped, then another one assigned that lives AT THE SAME ADDRESS ---------------------------------
+
+ADDRESS_SLOTS = ["schema_default", "type_default", "field_resolver", "field_subscription"]
+
+
+def _slot_good():
+    def resolve_greeting(root, ctx, info, name=None):
+        return "hello"
+    return resolve_greeting
+
+
+def _slot_bad():
+    # cannot be called as resolver(root, ctx, info, name=...)
+    def resolve_greeting(root):
+        return "hello"
+    return resolve_greeting
+
+
+def address_reuse_case(ctx, slot, tries=20000):
+    """validate() ok -> the ONLY reference to a resolver is dropped by plain assignment (`slot = None`) -> replacement
+    callables are created until one is allocated at the freed address (bounded; candidates are kept alive so that every
+    one gets another block) -> it is assigned by plain assignment -> validate() must give the verdict of a fresh
+    validation (the new callable is incompatible: SchemaValidationError). On a tree whose verdict fingerprint keeps the
+    validated callables alive (HEAD: `_current_resolvers()` holds the objects, `_same_objects` compares with `is`) the
+    address is never handed out again and the case degenerates to the ordinary reassignment; on a tree that records
+    `id()` numbers the collision is reached within a few allocations. The Lean cache machine speaks of resolver
+    IDENTITIES that stay alive as long as the state refers to them (`same` flags); address reuse is outside the model
+    and covered here. Returns (fails, collided)."""
+    import gc
+    from py_gql.exc import GraphQLError
+    from py_gql.schema import Argument, Field, ObjectType, Schema, String
+    field = Field("greeting", String, [Argument("name", String)])
+    query = ObjectType("Query", [field])
+    schema = Schema(query)
+
+    def get():
+        return {"schema_default": schema.default_resolver, "type_default": query.default_resolver,
+                "field_resolver": field.resolver, "field_subscription": field.subscription_resolver}[slot]
+
+    def put(v):
+        if slot == "schema_default":
+            schema.default_resolver = v
+        elif slot == "type_default":
+            query.default_resolver = v
+        elif slot == "field_resolver":
+            field.resolver = v
+        else:
+            field.subscription_resolver = v
+    fails = []
+    put(_slot_good())
+    try:
+        schema.validate()
+    except GraphQLError as exc:
+        return [("address-reuse:setup-rejected:%s" % slot, "a compatible resolver is rejected: %s" % str(exc)[:100])], False
+    old_address = id(get())
+    put(None)
+    gc.collect()
+    keep, bad = [], None
+    for _ in range(tries):
+        cand = _slot_bad()
+        if id(cand) == old_address:
+            bad = cand
+            break
+        keep.append(cand)
+    collided = bad is not None
+    if bad is None:
+        bad = keep[-1]
+    del keep
+    put(bad)
+    ctx.count()
+    fresh = real_validate(schema)[0]
+    try:
+        schema.validate()
+        cached = "valid"
+    except GraphQLError:
+        cached = "invalid"
+    except Exception as exc:  # noqa
+        cached = "internal:" + type(exc).__name__
+    ctx.stat("address-reuse:%s:%s" % (slot, "collided" if collided else "no-collision"))
+    if fresh == "invalid" and cached != "invalid":
+        fails.append(("stale-verdict-after:drop-then-assign:%s:%s" % (slot, "address-reused" if collided else "fresh-address"),
+                      "validate() returns `%s` after `%s = None; %s = <incompatible callable%s>` although a fresh validation rejects the schema"
+                      % (cached, slot, slot, " allocated at the freed address" if collided else "")))
+    elif fresh != "invalid":
+        ctx.stat("address-reuse:%s:replacement-not-rejected-by-fresh-validation" % slot)
+    return fails, collided
+
+
+def stream_address_reuse(ctx):
+    """every resolver slot, a fixed number of attempts in every run (no PRNG involved)"""
+    reached = {}
+    for slot in ADDRESS_SLOTS:
+        for _ in range(ctx.n(3, 10)):
+            fails, collided = address_reuse_case(ctx, slot)
+            reached[slot] = reached.get(slot, 0) + (1 if collided else 0)
+            ctx.nontrivial(("address-reuse", slot))
+            for sig, what in fails:
+                ctx.fail(sig, what, {"how": "address-reuse", "slot": slot, "what": what})
+            if fails:
+                break
+    ctx.extra["address_reuse_collisions"] = reached
+
+
 # ---------------------------------------------------------------------------------------------
 
 def corpus_cases(ctx, batch):
@@ -3029,6 +3134,7 @@ def run(ctx):
     stream_histories(ctx, batch)
     stream_valid_and_injected(ctx, batch)
     stream_structural_setters(ctx, batch)
+    stream_address_reuse(ctx)
     batch.flush()
     ctx.extra.pop("_shrunk", None)
     ctx.extra["extraction"] = attribution_mode()
@@ -3052,6 +3158,8 @@ def replay(ctx, data):
     inp = data.get("input", {})
     if inp.get("how") == "structural-setter":
         return bool(structural_case(ctx, None, inp["structural_seed"], inp["kind"]))
+    if inp.get("how") == "address-reuse":
+        return not any(address_reuse_case(ctx, inp["slot"])[0] for _ in range(5))
     how = inp.get("how", "")
     if not how:
         return True     # not a failing-input replay (e.g. a record of what no longer checks)
